@@ -98,3 +98,35 @@ func Verif_C14_open_encoding() {
 	verifCoverIf("as-trans", localAS > 65535)
 	verifCoverIf("plugin-supplied-cap-65", verifAnd(nc > 0, caps != nil))
 }
+
+// What actually reaches the wire: the real FSM path (dial / inbound -> sendOpenAndSetHoldTimer) with
+// symbolic configuration and plugin capabilities.
+func Verif_C14_open_on_the_wire() {
+	verifNote("real peer, outbound (dialled) or inbound connection (symbolic): the first and only OPEN written on the connection is checked against the symbolic configuration (local AS, hold time, router id) and 0..2 plugin capabilities (symbolic codes, value lengths 0..300); GetCapabilities called exactly once before it; an unrepresentable capability list puts nothing malformed on the wire (connection closed)")
+	dir := verifChoose("direction", 2)
+	e := newPenv(dir == in)
+	nc := verifChoose("ncaps", 3)
+	e.pl.caps = c14Caps(nc)
+	e.p.start()
+	var c *symConn
+	if dir == out {
+		verifQuiesce()
+		c = e.conns[out]
+	} else {
+		c = e.inject()
+	}
+	if c == nil {
+		verifAssert("connection-exists", false)
+		return
+	}
+	verifAssert("getcapabilities-exactly-once", e.pl.nGetCaps == 1)
+	verifAssert("at-most-one-write", len(c.writes) <= 1)
+	var enc []byte
+	if len(c.writes) == 1 {
+		enc = c.writes[0]
+	} else {
+		verifAssert("refused-open-closes-connection", c.closed)
+	}
+	c14CheckOpen(enc, e.cfg.localAS, e.cfg.holdSec, e.cfg.localID, e.pl.caps)
+	e.p.stop()
+}
